@@ -28,7 +28,7 @@ def build(rng, tier):
         mts = g.structures()
         allsegs = sorted(n for n in g.lib.SEGMENTS if n not in ('MSH', 'ANYHL7SEGMENT'))
         for mt in rng.sample(mts, min(len(mts), per)):
-            for style in ('plain', 'foreign', 'zseg', 'repeat', 'overflow', 'shuffle'):
+            for style in ('plain', 'foreign', 'zseg', 'repeat', 'overflow', 'shuffle', 'blank'):
                 try:
                     t, der, names = g.message(mt, 'random', rich=False)
                 except Exception:  # noqa
@@ -53,6 +53,10 @@ def build(rng, tier):
                         lines.append(g.zsegment(n))
                     else:
                         lines.append(n + '|1')
+                if style == 'blank':
+                    # empty lines between segments (and after the last one) carry no content: nothing after them may be lost
+                    for _ in range(rng.randint(1, 2)):
+                        lines.insert(rng.randrange(1, len(lines) + 1), '')
                 out.append((v, mt, style, '\r'.join(lines)))
     return out
 
@@ -105,8 +109,8 @@ def run(tier, seed):
                 break
     chk.dist['result_kinds'] = kinds
     chk.dist['messages'] = len(msgs)
-    chk.rule = ('per version, instances of random message structures in six styles: as derived; with 1-2 segments of other message types inserted; with a Z-segment; '
-                'with a repeated segment; with fields/components beyond the defined count; with two segments swapped. Each parsed with find_groups on and off under '
+    chk.rule = ('per version, instances of random message structures in seven styles: as derived; with 1-2 segments of other message types inserted; with a Z-segment; '
+                'with a repeated segment; with fields/components beyond the defined count; with two segments swapped; with empty lines between segments. Each parsed with find_groups on and off under '
                 'TOLERANT. Non-trivial = distinct (text, find_groups) whose encoding keeps all segments in order.')
     chk.samples = [{'version': v, 'structure': mt, 'style': st, 'text': t[:160]} for (v, mt, st, t) in msgs[::max(1, len(msgs) // 8)]][:8]
     chk.assumptions = ['leaf values are canonical (escape-stable, datatype-stable): normalisation of non-canonical leaves is C06/C13']
